@@ -2,7 +2,7 @@
    the regenerated arm tables use it (or a direct same-type comparison) in every numeric arm. *)
 From Coq Require Import ZArith Reals Lia Lra Psatz.
 From Flocq Require Import Core IEEE754.Binary IEEE754.Bits IEEE754.BinarySingleNaN.
-From VP Require Import Base.Tactics Cmp.F64 Cmp.Arms Cmp.Gen_EvalArms Cmp.Model.
+From VP Require Import Base.Tactics Cmp.F64 Cmp.Arms Cmp.Gen_EvalArms Cmp.Model Cmp.Classes.
 Local Open Scope Z_scope.
 
 (* pure integer core: comparing i*q with +-m, through quotient and remainder *)
@@ -174,6 +174,7 @@ Definition combine_fits (c : combine) (lt rt : vty) : bool :=
   end.
 
 Definition total_P (f : fn) (o : cop) (lt rt : vty) : bool :=
+  binop_mixed_le_ge f o lt rt ||
   match find_arm eval_arms f o lt rt with
   | Some a => combine_fits (a_how a) lt rt
   | None => false
@@ -205,10 +206,12 @@ Proof. intros o Ho. cbn in Ho. intuition subst; exact I. Qed.
 Lemma total_lemma :
   forall (f : fn) (o : cop) (l r : value),
     In o [OLt; OLe; OGt; OGe] -> In (ty_of l) [TInt; TFloat] -> In (ty_of r) [TInt; TFloat] ->
+    binop_mixed_le_ge f o (ty_of l) (ty_of r) = false ->
     exists b, eval_cmp f o l r = Some (VBool b).
 Proof.
-  intros f o l r Ho Hl Hr.
+  intros f o l r Ho Hl Hr NK.
   pose proof (table4 total_P f o _ _ total_check_ok Ho Hl Hr) as T. unfold total_P in T.
+  rewrite NK in T. cbn [orb] in T.
   unfold eval_cmp, eval_cmp_tbl.
   destruct (find_arm eval_arms f o (ty_of l) (ty_of r)) as [a|] eqn:E; [|discriminate].
   destruct (apply_fits _ _ _ T) as [b Hb].
@@ -229,6 +232,7 @@ Definition arm_exact (o : cop) (lt rt : vty) (c : combine) : bool :=
   end.
 
 Definition order_P (f : fn) (o : cop) (lt rt : vty) : bool :=
+  binop_mixed_le_ge f o lt rt ||
   match find_arm eval_arms f o lt rt with
   | Some a => arm_exact o lt rt (a_how a)
   | None => false
@@ -264,11 +268,13 @@ Qed.
 
 Lemma order_lemma : forall (f : fn) (o : cop) (r : rel) (a b : value),
   rel_of_cop o = Some r -> finite_num a -> finite_num b ->
+  binop_mixed_le_ge f o (ty_of a) (ty_of b) = false ->
   eval_cmp f o a b = Some (VBool (rel_test r (Rcompare (num_val a) (num_val b)))).
 Proof.
-  intros f o r a b Hr Fa Fb.
+  intros f o r a b Hr Fa Fb NK.
   assert (Ho : In o ord_ops) by (destruct o; cbn in Hr; try discriminate; cbn; auto 10).
   pose proof (table4 order_P f o _ _ order_check_ok Ho (num_ty _ Fa) (num_ty _ Fb)) as T. unfold order_P in T.
+  rewrite NK in T. cbn [orb] in T.
   unfold eval_cmp, eval_cmp_tbl.
   destruct (find_arm eval_arms f o (ty_of a) (ty_of b)) as [arm|] eqn:E; [|discriminate].
   rewrite (apply_exact o r _ a b Hr T Fa Fb).
@@ -277,17 +283,22 @@ Qed.
 
 Lemma order_prop_lemma : forall (f : fn) (o : cop) (r : rel) (a b : value),
   rel_of_cop o = Some r -> finite_num a -> finite_num b ->
+  binop_mixed_le_ge f o (ty_of a) (ty_of b) = false ->
   exists t, eval_cmp f o a b = Some (VBool t) /\ (t = true <-> R_rel r (num_val a) (num_val b)).
 Proof.
-  intros f o r a b Hr Fa Fb. eexists. split; [apply (order_lemma f o r a b Hr Fa Fb)|apply rel_test_spec].
+  intros f o r a b Hr Fa Fb NK. eexists. split; [apply (order_lemma f o r a b Hr Fa Fb NK)|apply rel_test_spec].
 Qed.
 
+Lemma gt_never_known : forall f lt rt, binop_mixed_le_ge f OGt lt rt = false.
+Proof. intros [] [] []; reflexivity. Qed.
+
 Lemma ge_iff_lemma : forall (f : fn) (a b : value), finite_num a -> finite_num b ->
+  binop_mixed_le_ge f OGe (ty_of a) (ty_of b) = false ->
   (eval_cmp f OGe a b = Some (VBool true) <->
    eval_cmp f OGt a b = Some (VBool true) \/ num_val a = num_val b).
 Proof.
-  intros f a b Fa Fb.
-  rewrite (order_lemma f OGe RGe a b eq_refl Fa Fb), (order_lemma f OGt RGt a b eq_refl Fa Fb).
+  intros f a b Fa Fb NK.
+  rewrite (order_lemma f OGe RGe a b eq_refl Fa Fb NK), (order_lemma f OGt RGt a b eq_refl Fa Fb (gt_never_known _ _ _)).
   destruct (Rcompare_spec (num_val a) (num_val b)) as [L|E|G]; cbn [rel_test]; split; intro H.
   - discriminate.
   - destruct H as [H|H]; [discriminate|lra].
